@@ -243,7 +243,7 @@ pub fn generate(rng: &mut Rng, max_cmds: usize) -> Mega {
                 let (mut prog, exp) = program(rng, true, Some(&cols));
                 // now and then the backend does not read (all of) this execution's parameters
                 if rng.chance(1, 8) {
-                    prog.ops.insert(0, QOp::Params(rng.below(3) as u8));
+                    prog.ops.insert(0, QOp::Params(rng.below(8) as u8));
                 }
                 conv.push(MCmd::Execute { id: ids[k], params, send_types: rebind }, Some(Script::Q(prog)));
                 exps.push(Some(ExpResp::Parts(exp)));
